@@ -879,6 +879,21 @@ theorem modify_keeps_lifecycle (id : Ident) (acps : List AcpModify) (ag : List (
   (modifyOp_proceed id acps ag cands ml h).2.2.2
 
 
+/-- **Batch modify is judged entry by entry**: an allowed batch has a modification list for every
+entry and each (entry, list) pair passes the per-entry decision — so all per-entry theorems above
+apply to every pair of an allowed batch. -/
+theorem batch_modify_each_entry_allowed (id : Ident) (acps : List AcpModify)
+    (ag : List (Nat × List Nat)) (entries : List (Ent × Option (List Mod)))
+    (h : batchModifyAllowOperation id acps ag entries = true) :
+    ∀ p, p ∈ entries → ∃ ml, p.2 = some ml ∧
+      modifyAllowPerEntry id (modifyRelatedAcp id acps) ag p.1 ml = true := by
+  intro p hp
+  unfold batchModifyAllowOperation at h
+  have := (List.all_eq_true.mp h) p hp
+  cases hml : p.2 with
+  | none => simp [hml] at this
+  | some ml => exact ⟨ml, rfl, by simpa [hml] using this⟩
+
 /-! ## Non-vacuity: concrete states in which the hypotheses hold and the decisions differ -/
 namespace Example
 
